@@ -36,11 +36,11 @@ static const int EV_LOOP[NE] = {0, 0, 1, 1, 0, 0, 0}; static const int EV_SIGS[N
 static const bool EV_FAILS[NE] = {false, false, false, false, false, true, true};     // POSIX: sigaction(SIGKILL | SIGSTOP) = EINVAL
 // which initialize() overload builds the event: 0 (int, Mode)  1 (initializer_list, Mode)  2 (std::set, Mode)
 static const int EV_INIT[NE] = {0, 1, 0, 0, 2, 0, 2};
-// DEFECT SWITCH (default off so that the tree stays quiet): with C04_MIXED_UNCATCHABLE_SET=1 lane C also offers enable(e6)/destroy(e6).
-// On the current code enable(e6) returns false but leaves SIGUSR1 subscribed for an event that reports isEnabled()==false; neither disable() nor the
+// (was a defect switch; the defect is repaired, so this is on by default; C04_MIXED_UNCATCHABLE_SET=0 turns it off) lane C also offers enable(e6)/destroy(e6).
+// Before the repair enable(e6) returned false but left SIGUSR1 subscribed for an event that reports isEnabled()==false; neither disable() nor the
 // destructor unsubscribes it, so the disposition of SIGUSR1 is never restored and a delivery after destroy(e6) calls into the freed event.
 static bool g_replay_keep_going = false;      // replay mode only (C04_REPLAY_KEEP_GOING=1): report a violation and carry on with the history
-static bool mixed_uncatchable_set() { const char *e = getenv("C04_MIXED_UNCATCHABLE_SET"); return e && *e == '1'; }
+static bool mixed_uncatchable_set() { const char *e = getenv("C04_MIXED_UNCATCHABLE_SET"); return !(e && *e == '0'); }   // on by default since the repair (fix commit in /repo); =0 switches it off
 
 // delivery scripts: all deliveries of a script happen before the loops get one pass each
 struct Script { const char *name; int where; std::vector<int> sigs; };     // where: -1 controller thread, l = thread of loop l
